@@ -542,6 +542,18 @@ def impl_l1(case):
     from halmos.bitvec import HalmosBitVec
 
     n, ab, m = case["n"], case["abs"], case["op"]
+    if case.get("sweep"):
+        # all-concrete sweep: one real call per row of operand values
+        dens, conc, ty = [], True, None
+        for row in case["vals"]:
+            o = impl_l1(dict(case, ops=[[0, v] for v in row], vals=[row], sweep=False))
+            if o.get("st") != "ok":
+                o["row"] = row
+                return o
+            dens.append(o["den"][0])
+            conc = conc and o["conc"]
+            ty = o["ty"]
+        return {"st": "ok", "ty": ty, "conc": conc, "den": dens}
     xs = []
     for i, (k, v) in enumerate(case["ops"]):
         xs.append(HalmosBitVec(v, size=n) if k == 0 else mk_operand(i, k, n))
@@ -874,8 +886,7 @@ def gen_l1_exhaustive8(r):
         for x in allv:
             cases.append({"lvl": "L1", "n": 8, "abs": 1, "op": m, "ops": [[0, x], [1, 0]], "vals": [[x, y] for y in allv]})
             cases.append({"lvl": "L1", "n": 8, "abs": 1, "op": m, "ops": [[1, 0], [0, x]], "vals": [[y, x] for y in allv]})
-            for y in allv:
-                cases.append({"lvl": "L1", "n": 8, "abs": 1, "op": m, "ops": [[0, x], [0, y]], "vals": [[x, y]]})
+            cases.append({"lvl": "L1", "n": 8, "abs": 1, "op": m, "ops": [[0, x], [0, 0]], "vals": [[x, y] for y in allv], "sweep": True})
     for x in allv:
         for m in ("not", "is_zero"):
             cases.append({"lvl": "L1", "n": 8, "abs": 1, "op": m, "ops": [[0, x]], "vals": [[x]]})
@@ -883,8 +894,7 @@ def gen_l1_exhaustive8(r):
         cases.append({"lvl": "L1", "n": 8, "abs": 1, "op": m, "ops": [[1, 0]], "vals": [[x] for x in allv]})
     # exp at size 8: all pairs concrete (small work) and symbolic base with every exponent
     for x in allv:
-        for y in allv:
-            cases.append({"lvl": "L1", "n": 8, "abs": 1, "op": "exp", "ops": [[0, x], [0, y]], "vals": [[x, y]]})
+        cases.append({"lvl": "L1", "n": 8, "abs": 1, "op": "exp", "ops": [[0, x], [0, 0]], "vals": [[x, y] for y in allv], "sweep": True})
     for y in allv:
         cases.append({"lvl": "L1", "n": 8, "abs": 1, "op": "exp", "ops": [[1, 0], [0, y]], "vals": [[x, y] for x in allv]})
     # addmod / mulmod: a random third of the 2^24 triples is too many; all (x, y) for 24 moduli
@@ -1177,48 +1187,100 @@ def run(rep, tier):
     if tier == "thorough":
         cases += gen_l1_exhaustive8(r)
     nproc = min(16, os.cpu_count() or 4)
-    t1 = time.time()
-    impl, crashed = run_pool(cases, nproc)
-    phases["impl_s"] = round(time.time() - t1, 1)
-    t1 = time.time()
-    rep.obligation("implementation workers ran every case", not crashed, f"{len(crashed)} case(s) lost to worker crashes" if crashed else "")
-    for i in crashed[:3]:
-        rep.fail("broken-tie", f"a worker process died while running case {slim(cases[i])} (twice)", case=slim(cases[i]))
-
-    model_res = None
-    if exe is not None:
-        m = Model(exe)
-        calls, spans = [], []
-        for c in cases:
-            cs = model_calls(c)
-            spans.append((len(calls), len(cs)))
-            calls += cs
-        try:
-            res = m.parallel_batch(calls)
-            model_res = [model_obs(c, res[s:s + n]) if n else None for c, (s, n) in zip(cases, spans)]
-        except Exception as e:  # noqa: BLE001
-            rep.obligation("extracted model ran on all cases", False, str(e)[:400])
-            rep.fail("broken-tie", f"extracted model driver failed: {e}"[:400], case={})
-
-    phases["model_s"] = round(time.time() - t1, 1)
-    rep.coverage["phase_wall_s"] = phases
     fl = Failures(rep)
     latent = {}
     slowest = 0.0
-    for i, c in enumerate(cases):
-        lvl = c["lvl"]
-        rep.count("level", lvl + (f"/n={c['n']}" if lvl == "L1" else ""))
-        rep.count("op", c["op"])
-        rep.count("operand_kinds", kinds_str(c) if lvl != "L2p" else "program")
-        nv = len(c["vals"])
-        key = {"lvl": lvl, "op": c["op"], "ops": c.get("ops"), "code": c.get("code"), "n": c.get("n"), "abs": c.get("abs"),
-               "vals": common.case_hash(c["vals"]) if nv > 4 else c["vals"]}
-        rep.evaluations += nv - 1
-        rep.case(key, nontrivial=nontrivial(c, Bset))
-        slowest = max(slowest, impl[i].get("t", 0))
-        if impl[i].get("st") == "worker-crash":
-            continue
-        judge(fl, c, impl[i], model_res[i] if model_res is not None else None, latent)
+    phases["impl_s"] = 0.0
+    phases["model_s"] = 0.0
+    n_model_checked = 0
+    all_crashed = 0
+    model = Model(exe) if exe is not None else None
+    # batches bounded by the number of valuations, so that the exhaustive tier stays in memory
+    batch, rows, batches = [], 0, []
+    for c in cases:
+        batch.append(c)
+        rows += len(c["vals"])
+        if rows >= 250000:
+            batches.append(batch)
+            batch, rows = [], 0
+    if batch:
+        batches.append(batch)
+    del cases
+    for batch in batches:
+        t1 = time.time()
+        impl, crashed = run_pool(batch, nproc)
+        phases["impl_s"] = round(phases["impl_s"] + time.time() - t1, 1)
+        all_crashed += len(crashed)
+        for i in crashed[:3]:
+            rep.fail("broken-tie", f"a worker process died while running case {slim(batch[i])} (twice)", case=slim(batch[i]))
+        t1 = time.time()
+        model_res = None
+        if model is not None:
+            calls, spans = [], []
+            for c in batch:
+                cs = model_calls(c)
+                spans.append((len(calls), len(cs)))
+                calls += cs
+            try:
+                res = model.parallel_batch(calls, timeout=3000)
+                model_res = [model_obs(c, res[s:s + n]) if n else None for c, (s, n) in zip(batch, spans)]
+                n_model_checked += len(batch)
+            except Exception as e:  # noqa: BLE001
+                rep.obligation("extracted model ran on all cases", False, str(e)[:400])
+                rep.fail("broken-tie", f"extracted model driver failed: {e}"[:400], case={})
+                model = None
+            del calls
+        phases["model_s"] = round(phases["model_s"] + time.time() - t1, 1)
+        for i, c in enumerate(batch):
+            lvl = c["lvl"]
+            rep.count("level", lvl + (f"/n={c['n']}" if lvl == "L1" else ""))
+            rep.count("op", c["op"])
+            rep.count("operand_kinds", kinds_str(c) if lvl != "L2p" else "program")
+            nv = len(c["vals"])
+            key = {"lvl": lvl, "op": c["op"], "ops": c.get("ops"), "code": c.get("code"), "n": c.get("n"), "abs": c.get("abs"),
+                   "vals": common.case_hash(c["vals"]) if nv > 4 else c["vals"]}
+            rep.evaluations += nv - 1
+            rep.case(key, nontrivial=nontrivial(c, Bset))
+            slowest = max(slowest, impl[i].get("t", 0))
+            if impl[i].get("st") == "worker-crash":
+                continue
+            judge(fl, c, impl[i], model_res[i] if model_res is not None else None, latent)
+        del impl, model_res
+    rep.obligation("implementation workers ran every case", not all_crashed, f"{all_crashed} case(s) lost to worker crashes" if all_crashed else "")
+    rep.coverage["phase_wall_s"] = phases
+
+    # L0: the pure helper functions against the spec and the generated Gallina (c06_pure)
+    try:
+        import halmos.bitvec as hb
+
+        pcalls, pwant = [], []
+        pvals = sorted(set(B) | set(range(0, 70)))
+        for x in pvals:
+            got = bool(hb.is_power_of_two(x))
+            want = x > 0 and bin(x).count("1") == 1
+            rep.case({"pure": "is_power_of_two", "x": x}, nontrivial=True)
+            if got != want:
+                fl.failing_input(f"is_power_of_two({x}) = {got}, a power of two: {want}", {"lvl": "L0", "op": "is_power_of_two", "ops": [[0, x]], "vals": [[x]]},
+                                 {"op": "is_power_of_two", "class": "wrong-value", "level": "L0"})
+            pcalls.append(("c06_pure", [0, x]))
+            pwant.append(int(got))
+            for nb in (8, 256):
+                xm = x & ((1 << nb) - 1)
+                got = hb.to_signed(xm, nb)
+                if got != sgn(xm, nb):
+                    fl.failing_input(f"to_signed({xm}, {nb}) = {got}, two's complement value: {sgn(xm, nb)}", {"lvl": "L0", "op": "to_signed", "ops": [[0, xm], [0, nb]], "vals": [[xm, nb]]},
+                                     {"op": "to_signed", "class": "wrong-value", "level": "L0"})
+                pcalls.append(("c06_pure", [1, xm, nb]))
+                pwant.append(got)
+        rep.count("level", "L0", len(pcalls))
+        if exe is not None:
+            pres = Model(exe).batch(pcalls)
+            for (nm, args), w, g in zip(pcalls, pwant, pres):
+                if g is None or g[0] != w:
+                    fl.broken_tie(f"generated pure function {args} : model {g}, implementation {w}", {"lvl": "L0", "args": args})
+                    break
+    except Exception as e:  # noqa: BLE001
+        rep.fail("broken-tie", f"pure-function tie crashed: {type(e).__name__}: {e}"[:300], case={})
 
     # big exponents
     for a, e, p in big_procs:
@@ -1241,7 +1303,7 @@ def run(rep, tier):
         print(f"KNOWN-FINDING: property={PID} {kid}: {h['what']} [{h['count']} case(s), e.g. {json.dumps(h['example'], default=str)[:300]}]")
     rep.coverage["known_findings_local"] = {k: {"count": h["count"], "example": h["example"]} for k, h in fl.known_hits.items()}
     rep.coverage["latent_unreachable_from_sevm"] = latent
-    rep.coverage["traces_validated_against_impl"] = len(cases) if model_res is not None else 0
+    rep.coverage["traces_validated_against_impl"] = n_model_checked
     rep.coverage["slowest_single_call_s"] = slowest
     rep.coverage["exhaustive"] = tier == "thorough"
     if tier == "thorough":
